@@ -109,36 +109,8 @@ def install_wellformedness(I, S):
                   'type_item': [inv_type_item]}
 
 
-TABLE = (('parse_scope_name', 'scope_name', 'scope_name'), ('parse_formal', 'formal', 'formal'),
-         ('parse_formals', 'formals', 'formals'), ('parse_signature', 'signature', 'signature'),
-         ('parse_event', 'event', 'event'), ('parse_events', 'events', 'events'), ('parse_port', 'port', 'port'),
-         ('parse_ports', 'ports', 'ports'), ('parse_instance', 'instance', 'instance'),
-         ('parse_instances', 'instances', 'instances'), ('parse_endpoint', 'end-point', 'endpoint'),
-         ('parse_binding', 'binding', 'binding'), ('parse_bindings', 'bindings', 'bindings'),
-         ('parse_fields', 'fields', 'fields'), ('parse_range', 'range', 'range_'), ('parse_data', 'data', 'data'),
-         ('parse_namespace', 'namespace', 'namespace'), ('parse_root', 'root', 'root'),
-         ('parse_comment', 'comment', 'comment'), ('parse_import', 'import', 'import_'),
-         ('parse_filename', 'file-name', 'filename'))
-# declarations: (function, schema, specification) - called with (element, parent_ns)
-DECLS = (('parse_enum', 'enum', 'enum'), ('parse_subint', 'subint', 'subint'), ('parse_extern', 'extern', 'extern'),
-         ('parse_foreign', 'foreign', 'foreign'), ('parse_component', 'component', 'component'),
-         ('parse_system', 'system', 'system'), ('parse_types', 'types', 'types'),
-         ('parse_interface', 'interface', 'interface'))
-
-
-def run(ctx: Ctx, only=None):
-    from props.gen_unbounded import ns_inv
-    I = ctx.interp
-    ghostlib.install(I)
-    I.load_module(JA)
-    spec = I.load_module('specs.parse_spec')
-    S = schemas()
-    install_wellformedness(I, S)
-    saved = dict(I.class_invs)
-    I.class_invs['dznpy.scoping.NamespaceIds'] = [ns_inv]
-    ctx.assumptions.append('parser contracts (props/parse_unbounded.py): input elements are WELL-FORMED typed JSON '
-                           '(key set of the element class, values of the right JSON type, legal direction words, '
-                           'identifiers in scope names); ill-formed input is decided on the bounded corpus of C15')
+def install_tree_contracts(I, ctx):
+    """NamespaceTree.fqn_member_name and specs.scoping.tree_fqn by contract (proved under C14)"""
     sc = I.load_module('dznpy.scoping')
     NS, NT = sc.globals['NamespaceIds'], sc.globals['NamespaceTree']
     STR_SEQ = z3.SeqSort(z3.StringSort())
@@ -176,6 +148,39 @@ def run(ctx: Ctx, only=None):
     I.overrides['specs.scoping.tree_fqn'] = tree_fqn_contract
     ctx.assumptions.append('callee by contract: NamespaceTree.fqn_member_name(m).items == tree_fqn(self) ++ m.items '
                            '(proved under C14)')
+
+
+TABLE = (('parse_scope_name', 'scope_name', 'scope_name'), ('parse_formal', 'formal', 'formal'),
+         ('parse_formals', 'formals', 'formals'), ('parse_signature', 'signature', 'signature'),
+         ('parse_event', 'event', 'event'), ('parse_events', 'events', 'events'), ('parse_port', 'port', 'port'),
+         ('parse_ports', 'ports', 'ports'), ('parse_instance', 'instance', 'instance'),
+         ('parse_instances', 'instances', 'instances'), ('parse_endpoint', 'end-point', 'endpoint'),
+         ('parse_binding', 'binding', 'binding'), ('parse_bindings', 'bindings', 'bindings'),
+         ('parse_fields', 'fields', 'fields'), ('parse_range', 'range', 'range_'), ('parse_data', 'data', 'data'),
+         ('parse_namespace', 'namespace', 'namespace'), ('parse_root', 'root', 'root'),
+         ('parse_comment', 'comment', 'comment'), ('parse_import', 'import', 'import_'),
+         ('parse_filename', 'file-name', 'filename'))
+# declarations: (function, schema, specification) - called with (element, parent_ns)
+DECLS = (('parse_enum', 'enum', 'enum'), ('parse_subint', 'subint', 'subint'), ('parse_extern', 'extern', 'extern'),
+         ('parse_foreign', 'foreign', 'foreign'), ('parse_component', 'component', 'component'),
+         ('parse_system', 'system', 'system'), ('parse_types', 'types', 'types'),
+         ('parse_interface', 'interface', 'interface'))
+
+
+def run(ctx: Ctx, only=None):
+    from props.gen_unbounded import ns_inv
+    I = ctx.interp
+    ghostlib.install(I)
+    I.load_module(JA)
+    spec = I.load_module('specs.parse_spec')
+    S = schemas()
+    install_wellformedness(I, S)
+    saved = dict(I.class_invs)
+    I.class_invs['dznpy.scoping.NamespaceIds'] = [ns_inv]
+    ctx.assumptions.append('parser contracts (props/parse_unbounded.py): input elements are WELL-FORMED typed JSON '
+                           '(key set of the element class, values of the right JSON type, legal direction words, '
+                           'identifiers in scope names); ill-formed input is decided on the bounded corpus of C15')
+    install_tree_contracts(I, ctx)
     try:
         for fname, sname, specname in DECLS:
             if only and fname not in only:
@@ -210,3 +215,197 @@ def run(ctx: Ctx, only=None):
         I.rec_invs = {}
         I.overrides.pop('dznpy.scoping.NamespaceTree.fqn_member_name', None)
         I.overrides.pop('specs.scoping.tree_fqn', None)
+
+
+# ================================================================================= whole documents (any nesting)
+KIND_CLASS = {'components': 'Component', 'enums': 'Enum', 'externs': 'Extern', 'filenames': 'Filename',
+              'foreigns': 'Foreign', 'imports': 'Import', 'interfaces': 'Interface', 'subints': 'SubInt',
+              'systems': 'System'}
+ITEM_CLASSES = ('component', 'enum', 'extern', 'foreign', 'file-name', 'import', 'interface', 'system', 'subint')
+
+
+def item_union(I, S):
+    """JSON union of everything that can stand in an 'elements' list of a root / namespace element: one of the nine
+    declaration classes, a namespace (recursive), a dict of an unknown class, or a non-dict value"""
+    from pyvc.values import JUnion
+    san = lambda c: c.replace('-', '_')
+    d = z3.Datatype('JItem')
+    ref = z3.DatatypeSort('JItem')
+    for c in ITEM_CLASSES:
+        d.declare('it_' + san(c), ('as_' + san(c), I.sorts.sort_of_rec(S[c])))
+    d.declare('it_namespace', ('ns_name', I.sorts.sort_of_rec(S['scope_name'])), ('ns_elements', z3.SeqSort(ref)))
+    d.declare('it_other', ('other_class', z3.StringSort()))
+    d.declare('it_nondict', ('nondict_tag', z3.IntSort()))
+    sort = d.create()
+    U = JUnion('JItem', sort)
+    n = len(ITEM_CLASSES)
+    for k, c in enumerate(ITEM_CLASSES):
+        U.variants.append((sort.recognizer(k),
+                           lambda i, e, p, k=k, c=c: i.wrap(T('rec', S[c]), sort.accessor(k, 0)(e), p)))
+    ns_schema = RecSchema('namespace_item', {'<class>': 'namespace'},
+                          [('name', T('rec', S['scope_name'])), ('elements', T('list', T('junion', U)))],
+                          acc={'name': sort.accessor(n, 0), 'elements': sort.accessor(n, 1)}, sort=sort)
+    other_schema = RecSchema('other_item', {}, [('<class>', T('str'))], acc={'<class>': sort.accessor(n + 1, 0)}, sort=sort)
+    known = ITEM_CLASSES + ('namespace',)
+
+    def mk_other(i, e, p):
+        c = sort.accessor(n + 1, 0)(e)
+        p.define(z3.And(*[c != z3.StringVal(w) for w in known]))
+        return i.wrap(T('rec', other_schema), e, p)
+    U.variants.append((sort.recognizer(n), lambda i, e, p: i.wrap(T('rec', ns_schema), e, p)))
+    U.variants.append((sort.recognizer(n + 1), mk_other))
+    U.variants.append((sort.recognizer(n + 2), lambda i, e, p: sort.accessor(n + 2, 0)(e)))
+    U.ns_elements = sort.accessor(n, 1)
+    return U
+
+
+def run_documents(ctx: Ctx):
+    """DznJsonAst.parse_element (recursion by contract, structural decrease) and DznJsonAst.process against
+    specs.parse_spec.decls_of / document_decls: well-formed documents of ANY size and ANY nesting of namespaces."""
+    from props.gen_unbounded import ns_inv
+    from pyvc.values import DtV, ObjV, SeqV, SeqT, JUnionV
+    from pyvc.builtins_ import list_extend
+    from pyvc.harness import PROVED, REFUTED
+    I = ctx.interp
+    ghostlib.install(I)
+    ja = I.load_module(JA)
+    A = I.load_module('dznpy.ast')
+    sc = I.load_module('dznpy.scoping')
+    spec = I.load_module('specs.parse_spec')
+    NS, NT = sc.globals['NamespaceIds'], sc.globals['NamespaceTree']
+    S = schemas()
+    install_wellformedness(I, S)
+    U = item_union(I, S)
+    S['root_doc'] = RecSchema('root_doc', {'<class>': 'root'},
+                              [('comment', T('rec', S['comment'])), ('elements', T('list', T('junion', U))),
+                               ('working-directory', T('str'))], optional=['comment'])
+    saved = dict(I.class_invs)
+    I.class_invs['dznpy.scoping.NamespaceIds'] = [ns_inv]
+    install_tree_contracts(I, ctx)
+    nt_sort = I.sorts.sort_of_class(NT)
+    ns_sort = I.sorts.sort_of_class(NS)
+    DK = {k: z3.Function('spec.decls.' + k, U.sort, nt_sort, z3.SeqSort(I.sorts.sort_of_class(A.globals[c])))
+          for k, c in KIND_CLASS.items()}
+    STR_SEQ = z3.SeqSort(z3.StringSort())
+
+    def tree_term(i, tree, path):
+        if isinstance(tree, DtV):
+            return tree.expr
+        if isinstance(tree, ObjV) and tree.cls is NT:
+            if tree.fields.get('parent') is None:
+                return nt_sort.constructor(0)()
+            items = i.getattr_(tree.fields['scope_name'], 'items', path)
+            z = i.to_zseq(items.term) if items.term.blocks else z3.Empty(STR_SEQ)
+            if z is None:
+                raise Unsupported('scope name of a namespace tree node not expressible')
+            return nt_sort.constructor(1)(tree_term(i, tree.fields['parent'], path), ns_sort.constructor(0)(z))
+        raise Unsupported('namespace tree of unknown shape')
+
+    def decls_value(i, kind, item, tree, path):
+        if not isinstance(item, JUnionV):
+            raise Unsupported('recursive call on something else than a document element')
+        return i.seq_of_base(DK[kind](item.expr, tree_term(i, tree, path)), T('cls', A.globals[KIND_CLASS[kind]]), path)
+
+    state = {'impl_depth': 0, 'spec_depth': 0, 'decr': [], 'force': False, 'outer': None}
+    pe = I.get_function(f'{JA}.DznJsonAst.parse_element')
+
+    def smaller(item):
+        """the recursive call is made on an element of the outer namespace element's list"""
+        o = state['outer']
+        e = item.expr if isinstance(item, JUnionV) else None
+        return (e is not None and o is not None and z3.is_app(e) and e.decl().kind() == z3.Z3_OP_SEQ_NTH and
+                e.arg(0).eq(U.ns_elements(o)))
+
+    def parse_element_contract(i, path, args, kw):
+        selfv, element, parent = args
+        if state['impl_depth'] == 0 and not state['force']:
+            state['impl_depth'] = 1
+            state['outer'] = element.expr if isinstance(element, JUnionV) else None
+            try:
+                return i.call_function(pe, args, kw, path, bypass_override=True)
+            finally:
+                state['impl_depth'] = 0
+        if not state['force']:
+            state['decr'].append(smaller(element))
+        fct = i.getattr_(selfv, 'file_contents', path)
+        for k in KIND_CLASS:
+            list_extend(i, path, fct.fields[k], SeqV(decls_value(i, k, element, parent, path)))
+        return None
+
+    def decls_of_contract(i, path, args, kw):
+        kind, item, tree = args
+        if state['spec_depth'] == 0 and not state['force']:
+            state['spec_depth'] = 1
+            try:
+                return i.call_function(spec.globals['decls_of'], args, kw, path, bypass_override=True)
+            finally:
+                state['spec_depth'] = 0
+        return SeqV(decls_value(i, kind, item, tree, path))
+    I.overrides[f'{JA}.DznJsonAst.parse_element'] = parse_element_contract
+    I.overrides['specs.parse_spec.decls_of'] = decls_of_contract
+    Ast = ja.globals['DznJsonAst']
+
+    def new_parser(p, symbolic_old):
+        obj = I.call(Ast, [], {}, p)
+        fct = obj.fields['_file_contents']
+        olds = {}
+        for k, c in KIND_CLASS.items():
+            if symbolic_old:
+                z = z3.Const('old_' + k, z3.SeqSort(I.sorts.sort_of_class(A.globals[c])))
+                fct.fields[k] = SeqV(I.seq_of_base(z, T('cls', A.globals[c]), p))
+                olds[k] = fct.fields[k].term
+        return obj, olds
+    try:
+        ctx.functions[f'{JA}.DznJsonAst.parse_element'] = 'proved (recursion by contract over nested namespaces, ' \
+                                                         'structural decrease; well-formed elements of any size)'
+        ctx.functions[f'{JA}.DznJsonAst.process'] = 'proved for well-formed documents of any size and nesting ' \
+                                                   '(parse_element by contract)'
+        for kind in KIND_CLASS:
+            def mk(p):
+                parser, olds = new_parser(p, True)
+                item = I.wrap(T('junion', U), z3.Const('in_item', U.sort), p)
+                tree = I.fresh_dt(NT, 'in_parent_ns', p)
+                return [parser, item, tree], [item, tree, olds]
+
+            def impl(i, p, a, k, kind=kind):
+                state['decr'] = []
+                i.call_function(pe, a, k, p)
+                p.decr = list(state['decr'])
+                return i.getattr_(i.getattr_(a[0], 'file_contents', p), kind, p)
+
+            def spc(i, p, a, k, kind=kind):
+                own = i.call_function(spec.globals['decls_of'], [kind] + a[:2], k, p)
+                return SeqV(SeqT(tuple(a[2][kind].blocks) + tuple(own.term.blocks)))
+            res = refines(ctx, f'json_ast.parse_element[{kind}]', f'{JA}.DznJsonAst.parse_element', impl, spc, mk,
+                          witness=None, text=f'parse_element appends exactly decls_of({kind!r}, element, parent_ns) '
+                                             f'to FileContents.{kind} and nothing else')
+            for n_, (p, r) in enumerate(res or []):
+                for dd in getattr(p, 'decr', []):
+                    o = ctx.new(f'json_ast.parse_element[{kind}]:path{n_}:decreases', 'decreases',
+                                f'{JA}.DznJsonAst.parse_element', 'the recursive call is made on an element of the '
+                                                                  "namespace element's own list (structurally smaller)")
+                    ctx.settle(o, PROVED if dd else REFUTED, 'syntactic', '' if dd else 'recursive call on another value')
+        # process(): parse_element by its contract
+        state['force'] = True
+        pr = I.get_function(f'{JA}.DznJsonAst.process')
+        for kind in KIND_CLASS:
+            def mk2(p):
+                parser, _ = new_parser(p, False)
+                doc = I.wrap(T('rec', S['root_doc']), z3.Const('in_doc', I.sorts.sort_of_rec(S['root_doc'])), p)
+                parser.fields['_ast'] = doc
+                return [parser], [doc]
+
+            def impl2(i, p, a, k, kind=kind):
+                fct = i.call_function(pr, a, k, p)
+                return i.getattr_(fct, kind, p)
+            refines(ctx, f'json_ast.process[{kind}]', f'{JA}.DznJsonAst.process', impl2,
+                    lambda i, p, a, k, kind=kind: i.call_function(spec.globals['document_decls'], [kind] + a, k, p),
+                    mk2, witness=None, text=f'process().{kind} == document_decls({kind!r}, document)')
+    finally:
+        state['force'] = False
+        I.class_invs.clear()
+        I.class_invs.update(saved)
+        I.rec_invs = {}
+        for q in (f'{JA}.DznJsonAst.parse_element', 'specs.parse_spec.decls_of',
+                  'dznpy.scoping.NamespaceTree.fqn_member_name', 'specs.scoping.tree_fqn'):
+            I.overrides.pop(q, None)
